@@ -723,6 +723,48 @@ fn c15_renoise(sc: &Scenario, pre: &World, out: &EvalOut, plan: &EvalPlan, salt:
             }
         }
     }
+    // "... and never make the outcome depend on scheduling or declaration order": on the re-noised
+    // history (every record pair textually different) a second schedule / declaration order must give
+    // the same outcome as the first (fault-free evaluations only, as in C14)
+    if plan.fault_free() && t.clean() {
+        let mut r = Rng::new(hash2(plan.sched_seed, 0xC15));
+        let mut p = fresh_plan(plan, 900);
+        p.hash_seed = plan.hash_seed;
+        p.decl_seed = (r.next_u64() >> 1) | 1;
+        let mut w2 = pre.clone();
+        w2.history = {
+            // the same re-noised records
+            let mut w3 = pre.clone();
+            for (i, (k, val)) in w3.history.iter_mut().enumerate() {
+                if !k.ends_with("!!!") {
+                    *val = renoise(val, hash2(plan.sched_seed, i as u64));
+                }
+            }
+            w3.history
+        };
+        let t2 = evaluate(&sc.cfg, &sc.defs, &mut w2, &p, salt);
+        account(rep, &t2, &p);
+        if t2.engine_error.is_none() {
+            *rep.probes.entry("c15_renoised_order_variants_compared").or_insert(0) += 1;
+            let mut cfgn = sc.cfg.clone();
+            cfgn.noise = true;
+            let hist_differs = match (&t.h_out, &t2.h_out) {
+                (Some(h1), Some(h2)) => history_diff(&cfgn, h1, h2).is_some(),
+                _ => false,
+            };
+            if disp_by_id(&t) != disp_by_id(&t2) || hist_differs {
+                push(
+                    rep,
+                    ri,
+                    vec![v(
+                        "C15",
+                        "textual-difference-makes-outcome-order-dependent",
+                        format!("with textually different, comparison-equal records the outcome differs between {:?} and {:?}/another declaration order", plan.policy, p.policy),
+                    )],
+                );
+            }
+        }
+    }
 }
 
 fn c16_contract(out: &EvalOut, ri: usize, rep: &mut RunReport) {
